@@ -157,6 +157,7 @@ type Leg struct {
 	Share     float64 `json:"share"`
 	Procs     int     `json:"procs"`
 	Workers   int     `json:"workers"`
+	Prop      string  `json:"prop,omitempty"` // scenario family run by this leg (default: the property itself)
 }
 
 // Meta is what the runner needs to know about a property's check.
